@@ -1395,3 +1395,174 @@ Proof.
   - apply Forall_forall. intros a Ha. rewrite Forall_forall in Tg. specialize (Tg a Ha).
     unfold attr_ok. rewrite Tg. repeat split; constructor.
 Qed.
+
+(* ================================================================== *)
+(* N. default nodeset                                                  *)
+
+Definition dn_inv (nodes : list obj) (st : dn_state) : Prop :=
+  (forall i, mem i (dn_set st) = true -> exists n, In n nodes /\ o_os n = i) /\
+  (forall n, In n nodes -> mem (o_os n) (dn_set st) = true -> bs_disjoint (o_cpuset n) (dn_rem st)) /\
+  (forall n m, In n nodes -> In m nodes -> o_os n <> o_os m ->
+     mem (o_os n) (dn_set st) = true -> mem (o_os m) (dn_set st) = true -> bs_disjoint (o_cpuset n) (o_cpuset m)).
+
+Lemma dn_take_inv nodes st n :
+  NoDup (map o_os nodes) -> dn_inv nodes st -> In n nodes ->
+  (bs_subset (o_cpuset n) (dn_rem st) = true \/ forall i, mem i (dn_set st) = false) ->
+  dn_inv nodes (dn_take st n).
+Proof.
+  intros ND [I1 [I2 I3]] Hn Hs. unfold dn_take, dn_inv. cbn [dn_set dn_rem].
+  assert (SAME : forall m, In m nodes -> o_os m = o_os n -> m = n).
+  { intros m Hm E. apply (NoDup_map_inj o_os nodes); assumption. }
+  split; [|split].
+  - intros i Hi. rewrite mem_add in Hi. apply orb_true_iff in Hi. destruct Hi as [Hi|Hi].
+    + apply N.eqb_eq in Hi. subst i. eauto.
+    + auto.
+  - intros m Hm Hb i Hi1 Hi2. rewrite mem_diff in Hi2. apply andb_true_iff in Hi2. destruct Hi2 as [R NR].
+    rewrite mem_add in Hb. apply orb_true_iff in Hb. destruct Hb as [Hb|Hb].
+    + apply N.eqb_eq in Hb. rewrite (SAME m Hm Hb) in Hi1. rewrite Hi1 in NR. discriminate.
+    + exact (I2 m Hm Hb i Hi1 R).
+  - intros a b Ha Hb Hne Ba Bb. rewrite mem_add in Ba, Bb.
+    apply orb_true_iff in Ba, Bb.
+    assert (OLD : forall m, In m nodes -> mem (o_os m) (dn_set st) = true -> bs_disjoint (o_cpuset m) (o_cpuset n)).
+    { intros m Hm Bm i M1 M2. destruct Hs as [Hs|Hs].
+      - rewrite bs_subset_spec in Hs. exact (I2 m Hm Bm i M1 (Hs i M2)).
+      - rewrite Hs in Bm. discriminate. }
+    destruct Ba as [Ba|Ba], Bb as [Bb|Bb].
+    + apply N.eqb_eq in Ba, Bb. congruence.
+    + apply N.eqb_eq in Ba. rewrite (SAME a Ha Ba). intros i M1 M2. exact (OLD b Hb Bb i M2 M1).
+    + apply N.eqb_eq in Bb. rewrite (SAME b Hb Bb). exact (OLD a Ha Ba).
+    + now apply I3.
+Qed.
+
+Lemma dn_check_inv nodes st : dn_inv nodes st -> dn_inv nodes (dn_check st).
+Proof. unfold dn_check. destruct (bs_is_empty (dn_rem st)); auto. Qed.
+
+Lemma dn_loop1_inv nodes sub st n :
+  NoDup (map o_os nodes) -> dn_inv nodes st -> In n nodes -> dn_inv nodes (dn_loop1 sub st n).
+Proof.
+  intros ND I Hn. unfold dn_loop1. destruct (dn_done st); [assumption|].
+  destruct (negb (o_subtype n =? sub)); [assumption|]. apply dn_check_inv.
+  destruct (bs_subset (o_cpuset n) (dn_rem st)) eqn:E; [|assumption]. apply dn_take_inv; auto.
+Qed.
+
+Lemma dn_loop2_inv nodes st e :
+  NoDup (map o_os nodes) -> dn_inv nodes st -> In (snd e) nodes -> dn_inv nodes (dn_loop2 st e).
+Proof.
+  intros ND I Hn. unfold dn_loop2. destruct e as [i n]. cbn [snd] in Hn. destruct (dn_done st); [assumption|].
+  destruct (mem i (dn_set st)); [assumption|]. apply dn_check_inv.
+  destruct (bs_subset (o_cpuset n) (dn_rem st)) eqn:E; cbn [andb]; [|assumption].
+  destruct (negb (bs_is_empty (o_cpuset n))); [|assumption]. apply dn_take_inv; auto.
+Qed.
+
+Lemma fold_inv {A S} (P : S -> Prop) (f : S -> A -> S) (Q : A -> Prop) l st :
+  (forall st x, P st -> Q x -> P (f st x)) -> P st -> Forall Q l -> P (fold_left f l st).
+Proof.
+  intros H. revert st. induction l as [|x l IH]; intros st Hp Hq; [assumption|].
+  inversion Hq; subst. cbn [fold_left]. apply IH; auto.
+Qed.
+
+Lemma In_insert_by_os n l x : In x (insert_by_os n l) <-> x = n \/ In x l.
+Proof.
+  induction l as [|m r IH]; cbn [insert_by_os]; [cbn; intuition|].
+  destruct (o_os n <? o_os m); cbn [In]; [intuition|]. rewrite IH. intuition.
+Qed.
+Lemma In_sort_by_os l x : In x (sort_by_os l) <-> In x l.
+Proof.
+  unfold sort_by_os. induction l as [|m r IH]; cbn [fold_right]; [reflexivity|].
+  rewrite In_insert_by_os, IH. cbn [In]. intuition.
+Qed.
+
+Lemma number_from_snd {A} k (l : list A) : Forall (fun e => In (snd e) l) (number_from k l).
+Proof.
+  revert k. induction l as [|x l IH]; intros k; cbn [number_from]; constructor.
+  - now left.
+  - specialize (IH (N.succ k)). rewrite Forall_forall in *. intros e He. right. auto.
+Qed.
+
+(* the default nodeset only names existing NUMA nodes, and the nodes it names
+   have pairwise disjoint cpusets *)
+Lemma default_nodeset_spec s set :
+  NoDup (map o_os (numa_nodes (m_topo s))) ->
+  default_nodeset s 0 = Ok set ->
+  (forall i, mem i set = true -> exists n, In n (numa_nodes (m_topo s)) /\ o_os n = i) /\
+  (forall n m, In n (numa_nodes (m_topo s)) -> In m (numa_nodes (m_topo s)) -> o_os n <> o_os m ->
+     mem (o_os n) set = true -> mem (o_os m) set = true -> bs_disjoint (o_cpuset n) (o_cpuset m)).
+Proof.
+  intros ND. unfold default_nodeset. cbn [N.eqb negb].
+  set (nodes := numa_nodes (m_topo s)) in *.
+  destruct (sort_by_os nodes) as [|first rest] eqn:E; [discriminate|].
+  assert (IN : forall x, In x (first :: rest) -> In x nodes) by (intros x Hx; apply In_sort_by_os; now rewrite E).
+  intros H. injection H as <-.
+  assert (I0 : dn_inv nodes (dn_take (DN bs_empty (t_root (m_topo s)) false) first)).
+  { apply dn_take_inv; [assumption| |apply IN; now left|right; intros i; apply mem_empty].
+    unfold dn_inv. cbn [dn_set dn_rem]. repeat split; intros; rewrite mem_empty in *; discriminate. }
+  assert (I1 : dn_inv nodes (fold_left (dn_loop1 (o_subtype first)) rest (dn_take (DN bs_empty (t_root (m_topo s)) false) first))).
+  { apply (fold_inv (dn_inv nodes) _ (fun x => In x nodes)); [|assumption|].
+    - intros st x P Q. now apply dn_loop1_inv.
+    - apply Forall_forall. intros x Hx. apply IN. now right. }
+  assert (I2 : dn_inv nodes (fold_left dn_loop2 (number_from 1 rest) (fold_left (dn_loop1 (o_subtype first)) rest (dn_take (DN bs_empty (t_root (m_topo s)) false) first)))).
+  { apply (fold_inv (dn_inv nodes) _ (fun e => In (snd e) nodes)); [|assumption|].
+    - intros st x P Q. now apply dn_loop2_inv.
+    - pose proof (number_from_snd 1 rest) as F. rewrite Forall_forall in *. intros e He. apply IN. right. now apply F. }
+  destruct I2 as [A [_ C]]. split; assumption.
+Qed.
+
+(* ================================================================== *)
+(* P. pairwise disjointness of stored cpusets is preserved             *)
+
+Lemma FOP_map {A B} (R : B -> B -> Prop) (f : A -> B) l :
+  ForallOrdPairs (fun x y => R (f x) (f y)) l <-> ForallOrdPairs R (map f l).
+Proof.
+  induction l as [|x l IH]; cbn [map].
+  - split; constructor.
+  - split; intros H; inversion H; subst; constructor.
+    + rewrite Forall_forall in *. intros y Hy. apply in_map_iff in Hy. destruct Hy as [z [<- Hz]]. auto.
+    + now apply IH.
+    + rewrite Forall_forall in *. intros y Hy. match goal with K : forall _, In _ (map f l) -> _ |- _ => apply K end. now apply in_map.
+    + now apply IH.
+Qed.
+
+Lemma FOP_app_end {A} (R : A -> A -> Prop) l x :
+  ForallOrdPairs R l -> Forall (fun y => R y x) l -> ForallOrdPairs R (l ++ [x]).
+Proof.
+  intros H F. induction H as [|y l Hy Hl IH]; cbn [app].
+  - constructor; constructor.
+  - inversion F; subst. constructor; [|now apply IH].
+    apply Forall_app. split; [assumption|]. constructor; [assumption|constructor].
+Qed.
+
+Lemma upsert_init_locs q v is :
+  map i_loc (upsert_init q v is) = map i_loc is ++ (match find_init is q with Some _ => [] | None => [q] end).
+Proof.
+  unfold find_init. induction is as [|i r IH]; cbn [upsert_init map find app]; [reflexivity|].
+  destruct (match_iloc q (i_loc i)); cbn [map i_loc].
+  - now rewrite app_nil_r.
+  - now rewrite IH.
+Qed.
+
+Lemma upsert_init_pd q v is : pd is -> compat is q -> pd (upsert_init q v is).
+Proof.
+  unfold pd. intros P C. apply FOP_map. rewrite upsert_init_locs. apply FOP_map in P.
+  destruct (find_init is q) eqn:F; [now rewrite app_nil_r|].
+  destruct C as [C|C]; [congruence|].
+  apply FOP_app_end; [assumption|].
+  rewrite Forall_forall in *. intros l Hl. apply in_map_iff in Hl. destruct Hl as [i [<- Hi]]. now apply C.
+Qed.
+
+Lemma FOP_filter_map {A B} (R : A -> A -> Prop) (R' : B -> B -> Prop) (f : A -> option B) l :
+  (forall x y x' y', f x = Some x' -> f y = Some y' -> R x y -> R' x' y') ->
+  ForallOrdPairs R l -> ForallOrdPairs R' (filter_map f l).
+Proof.
+  intros H P. induction P as [|x l Hx Hl IH]; cbn [filter_map]; [constructor|].
+  destruct (f x) as [x'|] eqn:E; [|assumption]. constructor; [|assumption].
+  apply Forall_forall. intros y' Hy'. apply in_filter_map in Hy'. destruct Hy' as [y [Hy Fy]].
+  rewrite Forall_forall in Hx. exact (H x y x' y' E Fy (Hx y Hy)).
+Qed.
+
+Lemma refresh_imi_pd t is : pd is -> pd (filter_map (refresh_imi t) is).
+Proof.
+  unfold pd. apply FOP_filter_map. intros x y x' y' Fx Fy R.
+  apply refresh_imi_out in Fx, Fy. destruct Fx as [_ [_ [_ Lx]]], Fy as [_ [_ [_ Ly]]].
+  destruct (i_loc x) as [cx|], (i_loc y) as [cy|]; rewrite Lx, Ly; cbn [loc_disjoint] in *; try exact Logic.I.
+  intros i M1 M2. rewrite mem_inter in M1, M2. apply andb_true_iff in M1, M2. exact (R i (proj1 M1) (proj1 M2)).
+Qed.
